@@ -34,6 +34,27 @@ def rule_inc_gate(check):
             sites.append((f, n))
     check.floor(R, "inc call sites outside telemetry.rs", len(sites), 1)
     for f, n in sites:
+        if f.name == "update_status" and (f.rec.get("self_ty") or "").split("<")[0].endswith("OperationTransformVisitor"):
+            # the reporting function is evaluated as a whole: on the nine (current, new) pairs it
+            # counts exactly once when the result is Modified and the rewrite not cancelled
+            try:
+                tab = S.status_table(prog, f)
+            except AnchorMissing as ex:
+                check.bad(R, "%s/%s/only-gate" % (R, f.name), hir.loc(n), "whether a result is counted depends on more than the current and the reported status (%s): a hook can be emitted without being counted" % str(ex).split(": ")[-1])
+                continue
+            want = S.expected_status_table()
+            over = ["(%s, %s): %d" % (c_, n_, tab[(c_, n_)][1]) for (c_, n_) in sorted(tab) if tab[(c_, n_)][1] > want[(c_, n_)][1]]
+            under = ["(%s, %s): %d" % (c_, n_, tab[(c_, n_)][1]) for (c_, n_) in sorted(tab) if tab[(c_, n_)][1] < want[(c_, n_)][1]]
+            check.expect(not over, R, "%s/%s" % (R, f.name), hir.loc(n), "inc only for a Modified result of a rewrite that is not cancelled", "inc is called for results that are not Modified (current, new: calls) %s: untouched operations are counted" % "; ".join(over))
+            # anything else that could decide the count (state other than the two statuses)
+            extra = []
+            for a in gate.atoms_at(f, n):
+                e = a[-1] if isinstance(a[-1], dict) else None
+                if a[0] in ("eq", "variant", "arm_not"):
+                    continue
+                extra.append(hir.describe(e.get("e", e) if e and "k" not in e else e)[:80] if e else str(a[:3]))
+            check.expect(not under and not extra, R, "%s/%s/only-gate" % (R, f.name), hir.loc(n), "every Modified result that reaches update_status is counted", "inc is not called for (current, new: calls) %s%s: a hook can be emitted without being counted" % ("; ".join(under) or "-", (" and is additionally gated by " + "; ".join(extra)) if extra else ""))
+            continue
         atoms = gate.atoms_at(f, n)
         ok = False
         why = []
@@ -189,7 +210,9 @@ def rule_tags(check):
             continue
         for n in g.nodes():
             if hir.is_call(n) and hir.callee_name(n) == "get" and "CsiMethods" in n["callee"]["path"]:
-                gate_names |= {norm(o) for o in pv.resolve_params(pv.origins(g, hir.call_args(n)[1]))}
+                # names read from the input tree (nodes the rewriter built itself and meets again on a
+                # later visit are not part of the comparison)
+                gate_names |= {norm(o) for o in pv.resolve_params(pv.origins(g, hir.call_args(n)[1])) if o[0][0] == "param"}
     for f, n in sites:
         if S._site_key(f, n) != "Call":
             continue
